@@ -193,6 +193,10 @@ func c11Case(run *evid.Run, i int, j *Journal) {
 		if h.Steps[k].Op == "append" && rng.Intn(2) == 0 {
 			h.Steps[k].PC = []int{4, 16, 64}[rng.Intn(3)]
 		}
+		if h.Steps[k].Op == "append" && rng.Intn(6) == 0 {
+			h.Steps[k].Payload = "" // an entry with an empty payload is an entry like any other: present, decodable, reachable
+			run.Count("appends_with_an_empty_payload", 1)
+		}
 	}
 	x := hx.NewExec(h)
 	for k := range h.Steps {
